@@ -247,7 +247,7 @@ Lemma uplink_channel_index_from_fc l l' i f dflt :
   map fc l = map fc l' -> uplink_channel_index_from l i f dflt = uplink_channel_index_from l' i f dflt.
 Proof.
   revert l' i. induction l as [|c l IH]; intros [|c' l'] i H; try discriminate; [reflexivity|].
-  cbn [map] in H. injection H as Hc Hl. unfold fc in Hc. injection Hc as Hf Hcu.
+  cbn [map] in H. injection H as Hf Hcu Hl.
   cbn [uplink_channel_index_from]. rewrite Hf, Hcu. now rewrite (IH l' (i + 1) Hl).
 Qed.
 
@@ -301,5 +301,7 @@ Proof.
     { intros f. unfold get_rx1_frequency, get_rx1_channel_index, get_uplink_channel_index, c', with_tables.
       cbn [c_kind c_tab]. rewrite Hdn.
       rewrite (uplink_channel_index_from_fc (t_up t') (t_up (c_tab c)) 0 f true Hup). reflexivity. }
-    exists d. rewrite Hidx, Hfr, <- Hf0, Hdn. repeat split; auto.
+    assert (Hgd : get_downlink_channel t' (spec_rx1_channel reg i) = Ok d).
+    { unfold get_downlink_channel. rewrite Hdn. apply (Hget (c_tab c)). exact H2. }
+    exists d. rewrite Hidx, Hfr, <- Hf0. repeat split; auto.
 Qed.
